@@ -292,11 +292,13 @@ PROPS = {
     "C18": {
         "engines": ["E2 mirsym+z3/cvc5"],
         "e2": True,
-        "functions": [("rsass::sass::FormalArgs::eval", "sass/formal_args.rs", r"pub fn eval\(&self, scope: ScopeRef, args: CallArgs\)")],
+        "functions": [("rsass::sass::FormalArgs::eval", "sass/formal_args.rs", r"pub fn eval\(&self, scope: ScopeRef, args: CallArgs\)"),
+                      ("rsass::sass::Closure::eval_value", "sass/callable.rs", r"pub fn eval_value"),
+                      ("rsass::sass::MixinDecl::get (Sass arm)", "sass/mixin.rs", r"Self::Sass\(decl\) =>")],
         "bounds": {"quick": "one call of FormalArgs::eval with ANY declared parameter count, argument count and rest-parameter flag (symbolic), up to 2 parameters bound "
                             "positionally and 2 by name/default per call (loops unrolled twice), every outcome of the named lookup, default evaluation and define"},
         "outside": "CallArgs::evaluate (splat handling), take_positional / only_named / check_no_named themselves (their contracts are assumed or their outcomes forked), "
-                   "Closure::eval_value / MixinDecl::get (definition-site scope), @return, @content, meta.keywords; name normalisation (`-`/`_`) lives in Name",
+                   "ScopeRef::eval_body (which @return is reached), @content, meta.keywords; name normalisation (`-`/`_`) lives in Name",
         "stubs": ["CallArgs::take_positional(n) returns min(n, #positional) values (contract assumed)", "OrderMap::remove, Value::do_evaluate, Scope::define, check_no_named: every Some/None resp. Ok/Err outcome",
                   "iterators over the formal parameters yield cells (name_k, default_k) with symbolic content"],
         "assumptions": ["rustc nightly MIR text = the code that is compiled", "mirsym's MIR subset semantics (/verif/mirsym/sym.py)", "z3 5.1 and cvc5 1.0.3 (every query on both)"],
